@@ -1672,7 +1672,9 @@ class TrajectoryStore:
                 elif data is not None:
                     val = getattr(data, name)
 
-                self._write_to_nc_var(var, index, name, field, val)
+                self._write_to_nc_var(
+                    var, index, name, field, val, nc_file.species or []
+                )
                 nc_file.traj_var[0][index] = index
 
     def _write_to_nc_var(
@@ -1682,8 +1684,13 @@ class TrajectoryStore:
         name: str,
         field: FieldMetadata,
         val: Any,
+        species: list[Species],
     ) -> None:
-        """Write a value to a NetCDF variable at the given index."""
+        """Write a value to a NetCDF variable at the given index.
+
+        Species-indexed values are written at the position of the species in
+        the NetCDF file's species dimension (`species`), which only contains
+        the species present when the file was created."""
 
         # Handle missing values.
         if val is None:
@@ -1697,6 +1704,13 @@ class TrajectoryStore:
         # variable length types of the appropriate base type.
         has_sp = Dimension.SPECIES in field.dimensions
         has_tm = Dimension.THRUST_MODE in field.dimensions
+        if has_sp:
+            for sp in val:
+                if sp not in species:
+                    raise ValueError(
+                        f'Species {sp.name} in data field "{name}" is not in '
+                        'the species dimension of the NetCDF file'
+                    )
         match (has_sp, has_tm):
             case (False, False):
                 # float, np.ndarray
@@ -1707,12 +1721,12 @@ class TrajectoryStore:
                     var[index, ti] = val[tm]
             case (True, False):
                 # SpeciesValues[float], SpeciesValues[np.ndarray]
-                for si, sp in enumerate(Species):
+                for si, sp in enumerate(species):
                     if sp in val:
                         var[index, si] = val[sp]
             case (True, True):
                 # SpeciesValues[ThrustModeValues]
-                for si, sp in enumerate(Species):
+                for si, sp in enumerate(species):
                     for ti, tm in enumerate(ThrustMode):
                         if sp in val and tm in val[sp]:
                             var[index, si, ti] = val[sp][tm]
@@ -1746,10 +1760,26 @@ class TrajectoryStore:
                 if all(var[index] == var.get_fill_value()):
                     return None
                 return var[index]
-            case (True, False, False) | (True, False, True):
-                # SpeciesValues[float] | SpeciesValues[np.ndarray]
+            case (True, False, False):
+                # SpeciesValues[float]: only species that were written for
+                # this field (the others hold the fill value).
+                fill = var.get_fill_value()
                 return SpeciesValues(
-                    {sp: var[index, si] for si, sp in enumerate(species)}
+                    {
+                        sp: var[index, si]
+                        for si, sp in enumerate(species)
+                        if var[index, si] != fill
+                    }
+                )
+            case (True, False, True):
+                # SpeciesValues[np.ndarray]: only species that were written
+                # for this field (the others are empty).
+                return SpeciesValues(
+                    {
+                        sp: var[index, si]
+                        for si, sp in enumerate(species)
+                        if len(var[index, si]) > 0
+                    }
                 )
             case (False, True, False):
                 # ThrustModeValues
@@ -1757,13 +1787,16 @@ class TrajectoryStore:
                     {tm: var[index, ti] for ti, tm in enumerate(ThrustMode)}
                 )
             case (True, True, False):
-                # SpeciesValues[ThrustModeValues]
+                # SpeciesValues[ThrustModeValues]: only species that were
+                # written for this field.
+                fill = var.get_fill_value()
                 return SpeciesValues[ThrustModeValues](
                     {
                         sp: ThrustModeValues(
                             {tm: var[index, si, ti] for ti, tm in enumerate(ThrustMode)}
                         )
                         for si, sp in enumerate(species)
+                        if not all(var[index, si, :] == fill)
                     }
                 )
             case _:
